@@ -87,7 +87,8 @@ def free_monoid(rng, tier):
     from pypose.basics.ops import cumops, cumops_
     N = 512 if tier == 'quick' else 4096
     fails = []; evals = 0; samples = []
-    for L in range(1, N + 1):
+    near_pow2 = sorted({L for k in range(9, 13) for L in (2 ** k - 1, 2 ** k, 2 ** k + 1, 2 ** k + 2, 2 ** k + 3) if N < L <= 4100}) if tier == 'quick' else []
+    for L in list(range(1, N + 1)) + near_pow2:
         for (shape, dim) in (((L,), 0), ((2, L), 1), ((L, 2), 0)) if L <= 64 or L % 7 == 0 else (((L,), 0),):
             base = torch.arange(L, dtype=torch.int64)
             lo = base.clone(); hi = base.clone()
@@ -122,3 +123,36 @@ def canary(env):
     items = [group_elem(env, 'SE3', f'X{i}') for i in range(3)]
     X = lie(pp, 'SE3', T.stack(items, 0))
     env.eq('left fold claimed for right', raw(X.cumprod(0, left=True)), T.stack(seq_fold(op, 'SE3', items, False), 0))
+
+
+@bounded('C12.stride_schedule', functions=[f'{BOPS}:cumops_'])
+def schedule(rng, tier):
+    """the stride iterable of the real cumops_ (the `for i in <expr>` header, extracted mechanically from the current source and
+    evaluated with real torch / math) is exactly 1, 2, 4, ..., 2^(n-1) with 2^n >= L and 2^(n-1) < L, for every L up to the bound"""
+    import ast, os, math, torch
+    repo = os.environ.get('PYPOSE_REPO', '/repo')
+    src = open(os.path.join(repo, 'pypose/basics/ops.py')).read()
+    fn = [n for n in ast.walk(ast.parse(src)) if isinstance(n, ast.FunctionDef) and n.name == 'cumops_'][0]
+    loops = [n for n in ast.walk(fn) if isinstance(n, ast.For)]
+    if len(loops) != 1:
+        return dict(evaluations=0, distinct_nontrivial=0, rule='', failures=[dict(clause='schedule_extraction', signature='cumops_ no longer has exactly one for loop')], samples=[])
+    pre = [st_ for st_ in fn.body if st_.lineno < loops[0].lineno and not (isinstance(st_, ast.Expr) and isinstance(st_.value, ast.Constant))]
+    code = compile(ast.Expression(loops[0].iter), 'cumops_-strides', 'eval')
+    N = 2 ** 13 if tier == 'quick' else 2 ** 17
+    fails = []; evals = 0
+    class V:                        # stand-in for the tensor: only .device is read by the stride expression
+        device = torch.device('cpu')
+    for L in range(1, N + 1):
+        env_ = {'math': math, 'torch': torch, 'L': L, 'v': V(), 'input': V(), 'dim': 0}
+        try:
+            strides = [int(x) for x in eval(code, env_)]
+        except Exception as e:
+            fails.append(dict(clause='stride_schedule', signature=f'L={L}', error=f'{type(e).__name__}: {e}'[:120])); break
+        evals += 1
+        n = 0
+        while 2 ** n < L: n += 1
+        if strides != [2 ** j for j in range(n)]:
+            fails.append(dict(clause='stride_schedule', signature=f'L={L}', strides=strides[-3:], expected_passes=n))
+            if len(fails) > 3: break
+    return dict(evaluations=evals, distinct_nontrivial=evals, rule='every length L in 1..N; the expression is re-extracted from the source on every run',
+                bound=f'L <= {N}', failures=fails[:4], samples=[dict(L=5, strides=[1, 2, 4])], exhaustive=True)
